@@ -22,7 +22,8 @@ import (
 // observation = (panicked statuses content-types decodes)   over 6 repetitions of the same request (map iteration order varies)
 
 // the last two names CONTAIN a registered built-in name (an exact registration must win over containment)
-var negTypes = []string{"application/json", "application/xml", "application/vnd.x+json", "text/csv", "application/json-seq", "application/xml-dtd"}
+var negTypes = []string{"application/json", "application/xml", "application/vnd.x+json", "text/csv", "application/json-seq", "application/xml-dtd",
+	"application/vnd.Acme.v2+json"} // (media type names are compared as they are spelled)
 var negQ = []string{"1", "0.9", "0.5", "0.1", "0", "0.90", "1.0", ".5", "0.75", "1.000"}
 var negBadQ = []string{"", "x", "0.5x", "0,5", "1e", "--1"}
 
@@ -121,7 +122,24 @@ func genNeg(r *Rng) Sx {
 		}
 		accept = first + "\n" + second
 	}
-	return L(Strs(registered), Strs(produces), A(dflt), A(accept), B(r.Pct(10)), A(preset), B(r.Pct(35)))
+	// another request served in between (8th field): the answers to the first one must be the same afterwards. Half of
+	// the time it looks like the first up to its first ';' and names other types after it
+	other := genAccept(r, produces)
+	if i := strings.Index(accept, ";"); i > 0 && r.Bool() {
+		other = accept[:i] + ";level=1, " + r.Pick(registered) + ", */*;q=0.1"
+	}
+	if len(registered) > 1 && r.Pct(6) {
+		// a route that produces nothing a writer is registered for, asked with two headers that are the same up to the
+		// first ';' and name different registered types after it: the writer falls back to what the header contains
+		produces = [][]string{{}, {}, {"*/*"}, {"text/html"}}[r.Intn(4)]
+		a, b := registered[0], registered[1]
+		if r.Bool() {
+			a, b = b, a
+		}
+		accept = "text/html;level=1, " + a + ", */*;q=0.1"
+		other = "text/html;level=1, " + b + ", */*;q=0.1"
+	}
+	return L(Strs(registered), Strs(produces), A(dflt), A(accept), B(r.Pct(10)), A(preset), B(r.Pct(35)), A(other))
 }
 
 type negValue struct {
@@ -172,7 +190,12 @@ func runNeg(raw Sx) (Sx, Sx) {
 	}
 	ws.Route(b)
 	c.Add(ws)
-	serve := func(times int) (int, Ls, Ls, Ls) {
+	other, hasOther := "", false
+	if len(sxList(raw)) > 7 {
+		other, hasOther = sxStr(sxNth(raw, 7)), true
+	}
+	var serve func(times int) (int, Ls, Ls, Ls)
+	serveWith := func(accept string, times int) (int, Ls, Ls, Ls) {
 		panicked := 0
 		statuses, cts, decs := Ls{}, Ls{}, Ls{}
 		for k := 0; k < times; k++ {
@@ -209,6 +232,7 @@ func runNeg(raw Sx) (Sx, Sx) {
 		}
 		return panicked, statuses, cts, decs
 	}
+	serve = func(times int) (int, Ls, Ls, Ls) { return serveWith(accept, times) }
 	panicked, statuses, cts, decs := serve(6)
 	// the same request with trace logging flipped: the set of answers must be the same (C19)
 	traceSame := 1
@@ -219,6 +243,27 @@ func runNeg(raw Sx) (Sx, Sx) {
 		if SxString(setOf(statuses)) != SxString(setOf(st2)) || SxString(setOf(cts)) != SxString(setOf(ct2)) {
 			traceSame = 0
 		}
+	}
+	// the same request again after ANOTHER request was served on the same container: the same set of answers (C19)
+	if hasOther {
+		var midSt, midCt Ls
+		func() {
+			defer func() { recover() }()
+			_, midSt, midCt, _ = serveWith(other, 1)
+		}()
+		_, st3, ct3, _ := serve(6)
+		if SxString(setOf(statuses)) != SxString(setOf(st3)) || SxString(setOf(cts)) != SxString(setOf(ct3)) {
+			traceSame = 0
+		}
+		// ... and the request served in between got the answer it gets when it is the first one (registry installed anew)
+		restful.VerifReplaceEntityAccessors(reg)
+		func() {
+			defer func() { recover() }()
+			_, aloneSt, aloneCt, _ := serveWith(other, 1)
+			if SxString(midSt) != SxString(aloneSt) || SxString(midCt) != SxString(aloneCt) {
+				traceSame = 0
+			}
+		}()
 	}
 	// oracle: every q string of the header, ranked by the float strconv.ParseFloat gives it
 	qs := map[string]bool{"1": true}
@@ -255,7 +300,7 @@ func runNeg(raw Sx) (Sx, Sx) {
 		}
 		rows = append(rows, L(A(v.s), rank))
 	}
-	return L(rows, Strs(registered), Strs(produces), A(dflt), A(accept), B(trace), A(preset), B(compact)), L(panicked, statuses, cts, decs, traceSame)
+	return L(rows, Strs(registered), Strs(produces), A(dflt), A(accept), B(trace), A(preset), B(compact), A(other)), L(panicked, statuses, cts, decs, traceSame)
 }
 
 // the distinct elements of a list, sorted by their printed form
